@@ -323,6 +323,28 @@ func (p *provider) findDescriptor(serviceType reflect.Type, key any) *Descriptor
 	return p.services[typeKey]
 }
 
+// isRegistered reports whether the descriptor is one of the registrations this
+// provider was built from. Descriptors created by one Add call reference each other
+// (interface aliases, multiple returns, result-object fields); one of them may have
+// been removed from the collection before Build, and is then not a service here.
+func (p *provider) isRegistered(descriptor *Descriptor) bool {
+	if descriptor == nil {
+		return false
+	}
+
+	if descriptor.Group != "" {
+		for _, member := range p.groups[GroupKey{Type: descriptor.Type, Group: descriptor.Group}] {
+			if member == descriptor {
+				return true
+			}
+		}
+
+		return false
+	}
+
+	return p.services[TypeKey{Type: descriptor.Type, Key: descriptor.Key}] == descriptor
+}
+
 // findGroupDescriptors finds all descriptors for a specific type within a group.
 // Returns an empty slice if the type is nil, group is empty, or no services are found.
 func (p *provider) findGroupDescriptors(serviceType reflect.Type, group string) []*Descriptor {
